@@ -1584,7 +1584,7 @@ struct CsrCase { key: usize, repo: usize, mft: usize, notify: usize }
 
 fn space_csr(ctx: &Ctx, d: &Dom) {
     let sp = ctx.space("build.csr",
-        "Csr::construct_rpki_ca -> RpkiCaCsr::decode -> verify_signature: key x caRepository {4 directory URI shapes + one whose path does not end in '/'} x rpkiManifest x 4 shapes x rpkiNotify {absent + 3}; there is no built value (the builder returns bytes), so the decoded accessors are compared with the builder's own inputs rendered the same way; non-trivial = distinct DER; outcome = notify present / absent");
+        "Csr::construct_rpki_ca -> RpkiCaCsr::decode -> verify_signature: key x caRepository {4 directory URI shapes + one whose path does not end in '/'} x rpkiManifest x 4 shapes x rpkiNotify {absent + 3}, plus positions x character classes in all three URIs (as in the certificate spaces); there is no built value (the builder returns bytes), so the decoded accessors are compared with the builder's own inputs rendered the same way; non-trivial = distinct DER; outcome = notify present / absent");
     let mut repos = d.dirs.clone();
     repos.push(uri::Rsync::from_str("rsync://h/m/ca").unwrap());
     let repo_names = ["short", "punct", "upcase", "long", "no-trailing-slash"];
@@ -1598,11 +1598,12 @@ fn space_csr(ctx: &Ctx, d: &Dom) {
     let mfts: Vec<uri::Rsync> = d.mfts.iter().cloned().chain(d.xtext.iter().map(|x| x.file.clone())).collect();
     let https: Vec<Option<uri::Https>> = d.https.iter().cloned().chain(d.xtext.iter().map(|x| Some(x.https.clone()))).collect();
     run_cases(ctx, &sp, "csr", &cases,
-        |c| format!("csr key={} caRepository={} rpkiManifest={} notify={}", c.key, repo_names[c.repo], URI_NAMES[c.mft], c.notify),
+        |c| if c.repo < nr { format!("csr key={} caRepository={} rpkiManifest={} notify={}", c.key, repo_names[c.repo], URI_NAMES[c.mft], c.notify) }
+            else { format!("csr key={} all three URIs: {} ({})", c.key, d.xtext[c.repo - nr].desc, d.xtext[c.repo - nr].file) },
         |c| {
             let mut r = CaseResult::default();
             r.label = format!("notify:{}", c.notify != 0);
-            let bytes = match guard(|| Csr::construct_rpki_ca(&d.signer, &Kid(c.key), &repos[c.repo], &d.mfts[c.mft], d.https[c.notify].as_ref())) {
+            let bytes = match guard(|| Csr::construct_rpki_ca(&d.signer, &Kid(c.key), &repos[c.repo], &mfts[c.mft], https[c.notify].as_ref())) {
                 Ok(Ok(x)) => x.as_slice().to_vec(),
                 Ok(Err(e)) => { r.fail("build", e.to_string()); r.label = "build-failed".into(); return r }
                 Err(p) => { r.fail("build", p); r.label = "build-failed".into(); return r }
@@ -1627,8 +1628,8 @@ fn space_csr(ctx: &Ctx, d: &Dom) {
             want.put("key_usage", || format!("{:?}", KeyUsage::Ca));
             want.put("extended_key_usage", || "None".into());
             want.put("ca_repository", || { let mut u = repos[c.repo].clone(); u.path_into_dir(); r_rsync(Some(&u)) });
-            want.put("rpki_manifest", || r_rsync(Some(&d.mfts[c.mft])));
-            want.put("rpki_notify", || r_https(d.https[c.notify].as_ref()));
+            want.put("rpki_manifest", || r_rsync(Some(&mfts[c.mft])));
+            want.put("rpki_notify", || r_https(https[c.notify].as_ref()));
             want.put("verify_signature", || "Ok".into());
             want.put("to_captured", || hx(&bytes));
             if let Some(x) = diff(&want, &obs_csr(&decoded)) { r.fail("accessors", format!("inputs vs decoded: {x}")) }
